@@ -37,6 +37,15 @@ def install_dateutil_stub():
         if isinstance(text, Rope):
             at = rope.whole_atom(text)
             if isinstance(at, Tok) and at.fmt == ISO and not at.chain:
+                if a or (set(k) - {'dayfirst', 'yearfirst'}):
+                    raise core.Unsupported('dateutil.parser.parse with options %s' % sorted(k))
+                if k.get('dayfirst'):
+                    # dateutil reads YYYY-MM-DD with dayfirst as year-day-month whenever that is a date (day field <= 12)
+                    d = at.d
+                    if d.c['d'] <= 12:
+                        c = dict(d.c)
+                        c['m'], c['d'] = d.c['d'], d.c['m']
+                        return SymDate(d.name + '/dayfirst', comps=c)
                 return at.d
             raise core.Unsupported('dateutil.parser.parse on abstract text')
         return real.parse(text, *a, **k)
